@@ -5,6 +5,7 @@
 package storage
 
 import (
+	"bytes"
 	"sort"
 
 	"github.com/marekgalovic/anndb/storage/raft"
@@ -15,6 +16,7 @@ import (
 	uuid "github.com/satori/go.uuid"
 )
 
+var _ bytes.Buffer
 var _ index.Metadata
 var _ sort.Interface
 var _ *raft.RaftGroup
@@ -363,6 +365,55 @@ var _ uuid.UUID
 
 // C04: one replicated entry. Well-formedness of the decoded entry (16-byte ids, non-negative levels) is what proposers must
 // establish (C12); under it the apply step never fails and notifies exactly once.
+// C04 / C03 / C08: the partition-level snapshot pair. snapshot() saves THIS partition's index, without header, and hands back
+// what was written (or an error and no bytes); processSnapshot() loads exactly the bytes it was given into THIS partition's
+// index, without header, and reports Load's error. (That Save's bytes load back to the same contents is C08's subject.)
+//@ func bytes.NewBuffer
+//@ props C04 C03 C08
+//@ assume
+//@ ensures [buffer] ret != nil && fresh(ret)
+//@ modifies nothing
+//@ func (*bytes.Buffer).Bytes
+//@ props C04 C03 C08
+//@ assume
+//@ modifies nothing
+
+//@ func (*storage.partition).snapshot
+//@ props C04 C03 C08
+//@ safety C12
+//@ ghost saved int = 0
+//@ ghost saveFailed int = 0
+//@ at call Hnsw).Save
+//@ requires [C04 saves-its-own-index-without-header] $arg0 == this.index && !$arg2 && saved == 0
+//@ set saved = saved + 1
+//@ set saveFailed = ite(isnil($ret0), 0, 1)
+//@ end
+//@ requires [wf] this.index != nil && this.log != nil
+//@ requires [index-invariant: what Save needs of the index (shape of shards and links, sizes that fit the length fields) is kept by the index operations] saveable(this.index)
+//@ ensures [C04 saved-once] isnil(ret1) ==> saved == 1 && saveFailed == 0
+//@ ensures [C04 failure-is-reported] saveFailed == 1 ==> !isnil(ret1) && len(ret0) == 0
+//@ modifies * except type partition.index; type partition.id; type partition.meta; type partition.dataset
+
+//@ func (*storage.partition).processSnapshot
+//@ props C04 C03 C08
+//@ safety C12
+//@ ghost rd *bytes.Buffer = nil
+//@ ghost loaded int = 0
+//@ ghost loadFailed int = 0
+//@ at call bytes.NewBuffer
+//@ requires [C04 reads-the-given-bytes] $arg0 == data
+//@ set rd = $ret0
+//@ end
+//@ at call Hnsw).Load
+//@ requires [C04 loads-into-its-own-index-without-header] $arg0 == this.index && !$arg2 && loaded == 0 && rd != nil && $arg1.pay == rd
+//@ set loaded = loaded + 1
+//@ set loadFailed = ite(isnil($ret0), 0, 1)
+//@ end
+//@ requires [wf] this.index != nil && this.log != nil && wfShards(this.index) && this.index.config != nil
+//@ ensures [C04 loaded-once] isnil(ret) ==> loaded == 1 && loadFailed == 0
+//@ ensures [C04 failure-is-reported] loadFailed == 1 ==> !isnil(ret)
+//@ modifies * except type partition.index; type partition.id; type partition.meta; type partition.dataset
+
 //@ func (*storage.partition).process
 //@ props C04 C02 C11
 //@ safety C12
